@@ -3,6 +3,8 @@ import BtcwVerif.Lemmas.InvPres
 import BtcwVerif.Lemmas.WFMined
 import BtcwVerif.Lemmas.WFRollback
 import BtcwVerif.Lemmas.Calls
+import BtcwVerif.Lemmas.RefAll
+import BtcwVerif.Lemmas.RefUtxos
 /-!
 # C01 — balance and spendable outputs equal ledger truth
 
@@ -262,5 +264,73 @@ example : PreAll Store.empty
 
 /-- non-vacuity of `C01_balance_inv`: the example store satisfies `Inv` -/
 example : Inv exStore := invB_sound _ (by decide)
+
+/-! ### ledger level: the store refines the five-minute specification `Ledger` (Lemmas/Ref*.lean)
+
+`ConsistentHistory {} es`: every event of `es` is chain-consistent when it is delivered (`Ledger.consistent` — one block
+per height, no confirmed double spend, parents first, … — plus what a validating node guarantees besides: inputs name
+existing outputs, no unconfirmed transaction conflicting with the chain is delivered, < 2^32−1 outputs, no
+self-spend; `TxStore.Consistent`).  `storeAfter` runs the store calls of `wallet.addRelevantTx` / `Rollback` /
+`RemoveUnminedTx` / the lease calls for each event; `ledgerAfter` folds `Ledger.apply`. -/
+open Ledger in
+/-- **C01, balance, against the ledger**: after EVERY chain-consistent history of events — unconfirmed and confirmed
+deliveries with redelivery, block disconnections to any height and reconnections, abandonments, leases, sweeps, clock
+moves — every store call has succeeded and `Balance`, for every coinbase maturity, `minConf` and `syncHeight`, is the
+C01 sentence read on the LEDGER: the sum of the credited outputs of known transactions that no known transaction
+spends, that are not leased, have at least `minConf` confirmations and, if coinbase, `maturity` confirmations. -/
+theorem C01_balance_ledger (es : List Event) (hc : ConsistentHistory {} es) (mat m sy : Int) :
+    ∃ s, storeAfter Store.empty {} es = .ok s ∧
+      balance s (ledgerAfter {} es).now mat m sy = .ok (Ledger.balance (ledgerAfter {} es) mat m sy) := by
+  obtain ⟨s, h1, hg, _⟩ := good_reachable es hc
+  refine ⟨s, h1, ?_⟩
+  rw [C01_balance_inv s (inv_of_wf _ hg.wf2.wf), balance_refines hg]
+
+open Ledger in
+/-- the same from any good pair (in particular after every prefix of a consistent history) -/
+theorem C01_balance_refines (s : Store) (L : Ledger) (hg : Good s L) (mat m sy : Int) :
+    balance s L.now mat m sy = .ok (Ledger.balance L mat m sy) := by
+  rw [C01_balance_inv s (inv_of_wf _ hg.wf2.wf), balance_refines hg]
+
+open Ledger in
+/-- **C01, spendable outputs, against the ledger**: after every chain-consistent history `UnspentOutputs` succeeds and
+lists — each once, in the store's bucket order — exactly the outputs the C01 sentence names on the ledger: the credited
+outputs of known transactions that no known transaction spends and that are not leased, each with its amount, its
+confirming block (height, hash, time; none while unconfirmed) and its coinbase flag. -/
+theorem C01_utxos_ledger (es : List Event) (hc : ConsistentHistory {} es) :
+    ∃ s l, storeAfter Store.empty {} es = .ok s ∧ unspentOutputs s (ledgerAfter {} es).now = .ok l ∧
+      l.Perm (Ledger.utxos (ledgerAfter {} es)) := by
+  obtain ⟨s, h1, hg, _⟩ := good_reachable es hc
+  obtain ⟨l, h2, h3⟩ := utxos_refines hg
+  exact ⟨s, l, h1, h2, h3⟩
+
+open Ledger in
+/-- **C01, outputs to watch on restart**: `OutputsToWatch` lists — each once — exactly the credited outputs of known
+transactions that no CONFIRMED transaction spends (leased ones and those spent by unconfirmed transactions included) -/
+theorem C01_watch_ledger (es : List Event) (hc : ConsistentHistory {} es) (now : Nat) :
+    ∃ s l, storeAfter Store.empty {} es = .ok s ∧ outputsToWatch s now = .ok l ∧
+      (l.map (·.op)).Perm (Ledger.watchSet (ledgerAfter {} es)) := by
+  obtain ⟨s, h1, hg, _⟩ := good_reachable es hc
+  obtain ⟨l, h2, h3⟩ := watch_refines hg now
+  exact ⟨s, l, h1, h2, h3⟩
+
+/-- non-vacuity of `C01_balance_ledger`: a chain-consistent history with a reorg — a coinbase `(1)` confirmed at height
+1, a payment `(2)` confirmed at height 2, a spender `(3)` of `(2,0)` seen unconfirmed, block 2 disconnected, `(2)`
+reconfirmed in another block 2, a lease, a clock move -/
+def exHistory : List Ledger.Event :=
+  [.confirmed ⟨⟨1, 11⟩, 100⟩ ⟨1, [⟨0, nullIndex⟩], [5000]⟩ [(0, false)],
+   .confirmed ⟨⟨2, 22⟩, 200⟩ ⟨2, [⟨77, 0⟩], [300, 400]⟩ [(0, false), (1, true)],
+   .seen ⟨3, [⟨2, 0⟩], [250]⟩ [(0, true)],
+   .disconnected 2,
+   .confirmed ⟨⟨2, 23⟩, 201⟩ ⟨2, [⟨77, 0⟩], [300, 400]⟩ [(0, false), (1, true)],
+   .lease 1 ⟨2, 1⟩ 5000000000,
+   .clock 1000000000]
+
+example : ConsistentHistory {} exHistory := by
+  unfold exHistory
+  refine ⟨?_, ?_, ?_, ?_, ?_, ?_, ?_, trivial⟩ <;>
+    exact ⟨by decide, by decide, fun t ht => by
+      first
+        | (cases ht; exact ⟨by decide, by decide⟩)
+        | cases ht⟩
 
 end TxStore.C01
